@@ -1299,6 +1299,35 @@ void stage_ml(report_t& r, const args_t& args)
             const auto [l1, l2] = REGS[static_cast<size_t>(u.variant)];
             const auto f        = linear::function_t{iterator, *loss, l1, l2};
             run(f, std::string("linear") + (l2 > 0 ? "/l2>0" : "/l2=0"), u.name() + " l1=" + jnum(l1) + " l2=" + jnum(l2));
+            if (l2 > 0)
+            {
+                // the same objective restricted to the weights (bias fixed): the sub-lattice on which the declared
+                // coefficient can be checked independently of the recorded bias-block finding
+                const auto nW = static_cast<Eigen::Index>(f.size() - ::nano::size(dataset.target_dims()));
+                const evec b0 = gen(f.size() - nW, 61);
+                auto       o  = from_function(f, "linear-weights-only/l2>0", u.name() + " l1=" + jnum(l1) + " l2=" + jnum(l2) + " bias fixed");
+                const auto full_value = o.value;
+                const auto full_vgrad = o.vgrad;
+                o.n     = nW;
+                o.value = [=](const evec& w)
+                {
+                    evec x(nW + b0.size());
+                    x << w, b0;
+                    return full_value(x);
+                };
+                o.vgrad = [=](const evec& w, evec& g)
+                {
+                    evec x(nW + b0.size()), gx;
+                    x << w, b0;
+                    const auto v = full_vgrad(x, gx);
+                    g            = gx.head(nW);
+                    return v;
+                };
+                const auto pts  = make_points(o.n, radii, T ? 8 : 6);
+                const auto dirs = make_dirs(o.n, false);
+                r.outcome("unit:linear-restricted-to-weights");
+                check_object(r, one, o, pts, dirs);
+            }
             return;
         }
         auto iterator = targets_iterator_t{dataset, samples};
